@@ -177,10 +177,12 @@ impl BootstrapAddr {
     }
 
     fn failure_rate(&self) -> f64 {
-        if self.success_count + self.failure_count == 0 {
+        // the counters come from a shared file: add in u64 so two large u32 values cannot overflow
+        let total = u64::from(self.success_count) + u64::from(self.failure_count);
+        if total == 0 {
             0.0
         } else {
-            self.failure_count as f64 / (self.success_count + self.failure_count) as f64
+            self.failure_count as f64 / total as f64
         }
     }
 }
